@@ -46,6 +46,7 @@ type gmeHarness struct {
 	dials  map[string]int
 	fail   map[string]bool
 	apiCfg *pb.ApiConfig
+	optsObj *GCPMultiEndpointOptions // the application's options object, edited in place between calls
 
 	// live endpoint ("live..." targets) and slow dial ("slow" target) of the livemon scenario
 	liveMu      sync.Mutex
@@ -347,7 +348,27 @@ func (h *gmeHarness) exec(line string) (out string) {
 				h.fail[e] = true
 			}
 		}
-		o := &GCPMultiEndpointOptions{GRPCgcpConfig: h.apiCfg, MultiEndpoints: gmeParseOpts(a["opts"]), Default: a["default"], DialFunc: h.dial}
+		// the application keeps ONE options object and edits it in place between calls (endpoint lists of unchanged
+		// length are overwritten element by element): the library may neither keep nor compare against the caller's slices
+		want := gmeParseOpts(a["opts"])
+		if h.optsObj == nil || toks[1] == "new" {
+			h.optsObj = &GCPMultiEndpointOptions{MultiEndpoints: map[string]*multiendpoint.MultiEndpointOptions{}}
+		}
+		o := h.optsObj
+		o.GRPCgcpConfig, o.Default, o.DialFunc = h.apiCfg, a["default"], h.dial
+		for n := range o.MultiEndpoints {
+			if _, ok := want[n]; !ok {
+				delete(o.MultiEndpoints, n)
+			}
+		}
+		for n, w := range want {
+			old := o.MultiEndpoints[n]
+			if w != nil && old != nil && len(old.Endpoints) == len(w.Endpoints) && len(w.Endpoints) > 0 {
+				copy(old.Endpoints, w.Endpoints)
+				continue
+			}
+			o.MultiEndpoints[n] = w
+		}
 		before := map[string]int{}
 		for e, cs := range h.conns {
 			before[e] = len(cs)
